@@ -1,6 +1,6 @@
 //@ unit tokenizer
 //@ serves C11 C04
-//@ must_verify Position::from Token::new Token::new_with_pos OffsetStrIter::span ascii_ws ascii_alpha ascii_digit eoi optional not trap complete whitespace comment commatok lbracetok rbracetok lparentok rparentok dotdottok dottok plustok dashtok startok slashtok modulustok pcttok eqeqtok notequaltok matchtok notmatchtok gttok gtequaltok ltequaltok lttok equaltok semicolontok doublecolontok colontok leftsquarebracket rightsquarebracket fatcommatok andtok ortok pipetok selecttok intok istok nottok tracetok failtok functok moduletok lettok importtok includetok asserttok outtok constrainttok converttok astok maptok filtertok reducetok is_symbol_char barewordtok digittok emptytok booleantok end_of_input escapequoted strtok lemma_boundary_step lemma_ascii_steps lemma_suffix_valid lemma_boundary_is_char_boundary lemma_ascii_on_boundary lemma_ascii_text lemma_fixed_text lemma_starts_1 lemma_starts_2 lemma_starts_first lemma_lits_1 lemma_lits_2 lemma_lits_3 lemma_lits_4 lemma_lits_5 lemma_lits_6 lemma_lits_7 lemma_lits_8 lemma_lits lemma_ws_dep_set lemma_ws_end_bounds lemma_ws_run_is_ascii lemma_cmt_end_bounds lemma_cmt_stop lemma_cmt_end_least lemma_until_span lemma_sep lemma_run_end_bounds lemma_consume_step lemma_consume_span
+//@ must_verify Position::from Token::new Token::new_with_pos OffsetStrIter::span ascii_ws ascii_alpha ascii_digit eoi optional not trap complete whitespace comment commatok lbracetok rbracetok lparentok rparentok dotdottok dottok plustok dashtok startok slashtok modulustok pcttok eqeqtok notequaltok matchtok notmatchtok gttok gtequaltok ltequaltok lttok equaltok semicolontok doublecolontok colontok leftsquarebracket rightsquarebracket fatcommatok andtok ortok pipetok selecttok intok istok nottok tracetok failtok functok moduletok lettok importtok includetok asserttok outtok constrainttok converttok astok maptok filtertok reducetok is_symbol_char barewordtok digittok emptytok booleantok end_of_input escapequoted strtok token lemma_boundary_step lemma_ascii_steps lemma_suffix_valid lemma_boundary_is_char_boundary lemma_ascii_on_boundary lemma_ascii_text lemma_fixed_text lemma_starts_1 lemma_starts_2 lemma_starts_first lemma_lits_1 lemma_lits_2 lemma_lits_3 lemma_lits_4 lemma_lits_5 lemma_lits_6 lemma_lits_7 lemma_lits_8 lemma_lits lemma_ws_dep_set lemma_ws_end_bounds lemma_ws_run_is_ascii lemma_cmt_lits lemma_cmt_end_bounds lemma_cmt_stop lemma_cmt_end_least lemma_until_span lemma_sep lemma_run_end_bounds lemma_consume_step lemma_consume_span lemma_true_false_lits lemma_bool_lits lemma_first_bytes lemma_subrange_starts
 //@ include prelude/head.rs
 use vstd::utf8::*;
 use std::rc::Rc;
@@ -549,6 +549,13 @@ pub open spec fn cmt_end(bs: Seq<u8>, s: int) -> int
 pub open spec fn cmt_next(bs: Seq<u8>, e: int) -> int { if is_crlf(bs, e) { e + 2 } else if is_lf(bs, e) { e + 1 } else { e } }
 pub open spec fn starts_comment(bs: Seq<u8>, o: int) -> bool { 0 <= o && o + 2 <= bs.len() && bs[o] == 0x2F && bs[o + 1] == 0x2F }
 
+pub proof fn lemma_cmt_lits()
+    ensures lit("//") =~= seq![0x2Fu8, 0x2Fu8], lit("\r\n") =~= seq![0x0Du8, 0x0Au8], lit("\n") =~= seq![0x0Au8],
+{
+    reveal_strlit("//"); lemma_ascii_text("//"@);
+    reveal_strlit("\r\n"); lemma_ascii_text("\r\n"@);
+    reveal_strlit("\n"); lemma_ascii_text("\n"@);
+}
 pub proof fn lemma_cmt_end_bounds(bs: Seq<u8>, s: int)
     requires 0 <= s <= bs.len()
     ensures s <= cmt_end(bs, s) <= bs.len(), s <= cmt_next(bs, cmt_end(bs, s)) <= bs.len()
@@ -566,7 +573,7 @@ pub proof fn lemma_cmt_stop(bs: Seq<u8>, j: int)
     ensures cmt_stop(bs, j) == cmt_ends_at(bs, j),
         starts_with_at(bs, j, lit("\r\n")) == is_crlf(bs, j), starts_with_at(bs, j, lit("\n")) == is_lf(bs, j),
 {
-    lemma_lits();
+    lemma_cmt_lits();
     lemma_starts_2(bs, j, 0x0D, 0x0A); lemma_starts_1(bs, j, 0x0A);
 }
 pub proof fn lemma_cmt_end_least(bs: Seq<u8>, s: int, e: int)
@@ -623,7 +630,7 @@ pub open spec fn comment_tok<'a>(input: OffsetStrIter<'a>, r: Result<OffsetStrIt
 //@   >>>
 //@   body_start <<<
     proof {
-        lemma_lits();
+        lemma_cmt_lits();
         let bs = bytes_of(input); let o = off_of(input);
         lemma_starts_2(bs, o, 0x2F, 0x2F);
         if starts_comment(bs, o) {
@@ -660,7 +667,7 @@ pub open spec fn comment_tok<'a>(input: OffsetStrIter<'a>, r: Result<OffsetStrIt
 pub open spec fn fixed_tok<'a>(i: OffsetStrIter<'a>, r: Result<OffsetStrIter<'a>, Token>, text: &str, typ: TokenType) -> bool {
     let bs = bytes_of(i); let o = off_of(i); let n = lit(text).len();
     if starts_with_at(bs, o, lit(text)) {
-        r matches Result::Complete(rest, tok) && moved(i, rest, o + n)
+        r matches Result::Complete(rest, tok) && moved(i, rest, o + n) && n > 0
         && tok.typ == typ && tok.fragment@ == text@ && pos_is(tok.pos, i)
         && (on_boundary(bs, o) ==> on_boundary(bs, o + n))
     } else {
@@ -675,7 +682,7 @@ pub open spec fn sep_end(bs: Seq<u8>, k: int) -> int {
 pub open spec fn keyword_tok<'a>(i: OffsetStrIter<'a>, r: Result<OffsetStrIter<'a>, Token>, text: &str) -> bool {
     let bs = bytes_of(i); let o = off_of(i); let n = lit(text).len();
     if starts_with_at(bs, o, lit(text)) && sep_at(bs, o + n) {
-        r matches Result::Complete(rest, tok) && moved(i, rest, sep_end(bs, o + n)) && sep_end(bs, o + n) > o + n
+        r matches Result::Complete(rest, tok) && moved(i, rest, sep_end(bs, o + n)) && sep_end(bs, o + n) > o + n && n > 0
         && tok.typ is BAREWORD && tok.fragment@ == text@ && pos_is(tok.pos, i)
         && (on_boundary(bs, o) ==> on_boundary(bs, sep_end(bs, o + n)))
     } else {
@@ -1307,7 +1314,7 @@ pub open spec fn run_tok<'a>(i: OffsetStrIter<'a>, r: Result<OffsetStrIter<'a>, 
 pub open spec fn word_tok<'a>(i: OffsetStrIter<'a>, r: Result<OffsetStrIter<'a>, Token>, text: &str, typ: TokenType) -> bool {
     let bs = bytes_of(i); let o = off_of(i); let n = lit(text).len();
     starts_with_at(bs, o, lit(text)) && !sym_at(bs, o + n)
-    && (r matches Result::Complete(rest, tok) && moved(i, rest, o + n)
+    && (r matches Result::Complete(rest, tok) && moved(i, rest, o + n) && n > 0
         && tok.typ == typ && tok.fragment@ == text@ && pos_is(tok.pos, i)
         && (on_boundary(bs, o) ==> on_boundary(bs, o + n)))
 }
@@ -1400,7 +1407,8 @@ pub proof fn lemma_bool_lits(bs: Seq<u8>, o: int)
 pub open spec fn str_tok<'a>(i: OffsetStrIter<'a>, r: Result<OffsetStrIter<'a>, Token>) -> bool {
     let bs = bytes_of(i); let o = off_of(i);
     &&& !(0 <= o < bs.len() && bs[o] == 0x22) ==> r is Fail
-    &&& r matches Result::Complete(rest, tok) ==> moved(i, rest, off_of(rest)) && o + 2 <= off_of(rest)
+    &&& r matches Result::Complete(rest, tok) ==> moved(i, rest, off_of(rest)) && o + 2 <= off_of(rest) <= bs.len()
+            && bs[o] == 0x22 && bs[off_of(rest) - 1] == 0x22
             && tok.typ is QUOTED && pos_is(tok.pos, i) && on_boundary(bs, off_of(rest))
     &&& !(r is Abort)
 }
@@ -1412,7 +1420,7 @@ pub open spec fn str_tok<'a>(i: OffsetStrIter<'a>, r: Result<OffsetStrIter<'a>, 
 //@   >>>
 //@   body_start <<<
     proof {
-        lemma_lits(); lemma_starts_1(bytes_of(i), off_of(i), 0x22);
+        reveal_strlit("\""); lemma_ascii_text("\""@); lemma_starts_1(bytes_of(i), off_of(i), 0x22);
         // the closing quote is ASCII: what follows it starts a character
         assert forall|k: int| 0 < k <= bytes_of(i).len() && bytes_of(i)[k - 1] == 0x22 implies on_boundary(bytes_of(i), k) by {
             lemma_ascii_on_boundary(i.contained.source, k - 1);
@@ -1422,6 +1430,200 @@ pub open spec fn str_tok<'a>(i: OffsetStrIter<'a>, r: Result<OffsetStrIter<'a>, 
 //@   >>>
 //@ end
 
+
+// =====================================================================================================
+// token: the ORDERED alternation
+// =====================================================================================================
+// every fixed text `token` looks for, in bytes: the one- and two-byte operators exactly, the words by their first byte
+pub proof fn lemma_first_bytes(bs: Seq<u8>, o: int)
+    ensures
+        starts_with_at(bs, o, lit(",")) == (0 <= o < bs.len() && bs[o] == 0x2C),
+        starts_with_at(bs, o, lit("{")) == (0 <= o < bs.len() && bs[o] == 0x7B),
+        starts_with_at(bs, o, lit("}")) == (0 <= o < bs.len() && bs[o] == 0x7D),
+        starts_with_at(bs, o, lit("(")) == (0 <= o < bs.len() && bs[o] == 0x28),
+        starts_with_at(bs, o, lit(")")) == (0 <= o < bs.len() && bs[o] == 0x29),
+        starts_with_at(bs, o, lit("..")) == (0 <= o && o + 2 <= bs.len() && bs[o] == 0x2E && bs[o + 1] == 0x2E),
+        starts_with_at(bs, o, lit(".")) == (0 <= o < bs.len() && bs[o] == 0x2E),
+        starts_with_at(bs, o, lit("+")) == (0 <= o < bs.len() && bs[o] == 0x2B),
+        starts_with_at(bs, o, lit("-")) == (0 <= o < bs.len() && bs[o] == 0x2D),
+        starts_with_at(bs, o, lit("*")) == (0 <= o < bs.len() && bs[o] == 0x2A),
+        starts_with_at(bs, o, lit("/")) == (0 <= o < bs.len() && bs[o] == 0x2F),
+        starts_with_at(bs, o, lit("%%")) == (0 <= o && o + 2 <= bs.len() && bs[o] == 0x25 && bs[o + 1] == 0x25),
+        starts_with_at(bs, o, lit("%")) == (0 <= o < bs.len() && bs[o] == 0x25),
+        starts_with_at(bs, o, lit("==")) == (0 <= o && o + 2 <= bs.len() && bs[o] == 0x3D && bs[o + 1] == 0x3D),
+        starts_with_at(bs, o, lit("!=")) == (0 <= o && o + 2 <= bs.len() && bs[o] == 0x21 && bs[o + 1] == 0x3D),
+        starts_with_at(bs, o, lit("~")) == (0 <= o < bs.len() && bs[o] == 0x7E),
+        starts_with_at(bs, o, lit("!~")) == (0 <= o && o + 2 <= bs.len() && bs[o] == 0x21 && bs[o + 1] == 0x7E),
+        starts_with_at(bs, o, lit(">")) == (0 <= o < bs.len() && bs[o] == 0x3E),
+        starts_with_at(bs, o, lit(">=")) == (0 <= o && o + 2 <= bs.len() && bs[o] == 0x3E && bs[o + 1] == 0x3D),
+        starts_with_at(bs, o, lit("<=")) == (0 <= o && o + 2 <= bs.len() && bs[o] == 0x3C && bs[o + 1] == 0x3D),
+        starts_with_at(bs, o, lit("<")) == (0 <= o < bs.len() && bs[o] == 0x3C),
+        starts_with_at(bs, o, lit("=")) == (0 <= o < bs.len() && bs[o] == 0x3D),
+        starts_with_at(bs, o, lit(";")) == (0 <= o < bs.len() && bs[o] == 0x3B),
+        starts_with_at(bs, o, lit("::")) == (0 <= o && o + 2 <= bs.len() && bs[o] == 0x3A && bs[o + 1] == 0x3A),
+        starts_with_at(bs, o, lit(":")) == (0 <= o < bs.len() && bs[o] == 0x3A),
+        starts_with_at(bs, o, lit("[")) == (0 <= o < bs.len() && bs[o] == 0x5B),
+        starts_with_at(bs, o, lit("]")) == (0 <= o < bs.len() && bs[o] == 0x5D),
+        starts_with_at(bs, o, lit("=>")) == (0 <= o && o + 2 <= bs.len() && bs[o] == 0x3D && bs[o + 1] == 0x3E),
+        starts_with_at(bs, o, lit("&&")) == (0 <= o && o + 2 <= bs.len() && bs[o] == 0x26 && bs[o + 1] == 0x26),
+        starts_with_at(bs, o, lit("||")) == (0 <= o && o + 2 <= bs.len() && bs[o] == 0x7C && bs[o + 1] == 0x7C),
+        starts_with_at(bs, o, lit("|")) == (0 <= o < bs.len() && bs[o] == 0x7C),
+        starts_with_at(bs, o, lit("select")) ==> 0 <= o < bs.len() && bs[o] == 0x73,
+        starts_with_at(bs, o, lit("in")) == (0 <= o && o + 2 <= bs.len() && bs[o] == 0x69 && bs[o + 1] == 0x6E),
+        starts_with_at(bs, o, lit("is")) == (0 <= o && o + 2 <= bs.len() && bs[o] == 0x69 && bs[o + 1] == 0x73),
+        starts_with_at(bs, o, lit("not")) ==> 0 <= o < bs.len() && bs[o] == 0x6E,
+        starts_with_at(bs, o, lit("TRACE")) ==> 0 <= o < bs.len() && bs[o] == 0x54,
+        starts_with_at(bs, o, lit("fail")) ==> 0 <= o < bs.len() && bs[o] == 0x66,
+        starts_with_at(bs, o, lit("func")) ==> 0 <= o < bs.len() && bs[o] == 0x66,
+        starts_with_at(bs, o, lit("module")) ==> 0 <= o < bs.len() && bs[o] == 0x6D,
+        starts_with_at(bs, o, lit("let")) ==> 0 <= o < bs.len() && bs[o] == 0x6C,
+        starts_with_at(bs, o, lit("import")) ==> 0 <= o < bs.len() && bs[o] == 0x69,
+        starts_with_at(bs, o, lit("include")) ==> 0 <= o < bs.len() && bs[o] == 0x69,
+        starts_with_at(bs, o, lit("assert")) ==> 0 <= o < bs.len() && bs[o] == 0x61,
+        starts_with_at(bs, o, lit("out")) ==> 0 <= o < bs.len() && bs[o] == 0x6F,
+        starts_with_at(bs, o, lit("constraint")) ==> 0 <= o < bs.len() && bs[o] == 0x63,
+        starts_with_at(bs, o, lit("convert")) ==> 0 <= o < bs.len() && bs[o] == 0x63,
+        starts_with_at(bs, o, lit("as")) == (0 <= o && o + 2 <= bs.len() && bs[o] == 0x61 && bs[o + 1] == 0x73),
+        starts_with_at(bs, o, lit("map")) ==> 0 <= o < bs.len() && bs[o] == 0x6D,
+        starts_with_at(bs, o, lit("filter")) ==> 0 <= o < bs.len() && bs[o] == 0x66,
+        starts_with_at(bs, o, lit("reduce")) ==> 0 <= o < bs.len() && bs[o] == 0x72,
+        starts_with_at(bs, o, lit("NULL")) ==> 0 <= o < bs.len() && bs[o] == 0x4E,
+        starts_with_at(bs, o, lit("true")) ==> 0 <= o < bs.len() && bs[o] == 0x74,
+        starts_with_at(bs, o, lit("false")) ==> 0 <= o < bs.len() && bs[o] == 0x66,
+{
+    lemma_lits();
+    lemma_starts_1(bs, o, 0x2C);
+    lemma_starts_1(bs, o, 0x7B);
+    lemma_starts_1(bs, o, 0x7D);
+    lemma_starts_1(bs, o, 0x28);
+    lemma_starts_1(bs, o, 0x29);
+    lemma_starts_2(bs, o, 0x2E, 0x2E);
+    lemma_starts_1(bs, o, 0x2E);
+    lemma_starts_1(bs, o, 0x2B);
+    lemma_starts_1(bs, o, 0x2D);
+    lemma_starts_1(bs, o, 0x2A);
+    lemma_starts_1(bs, o, 0x2F);
+    lemma_starts_2(bs, o, 0x25, 0x25);
+    lemma_starts_1(bs, o, 0x25);
+    lemma_starts_2(bs, o, 0x3D, 0x3D);
+    lemma_starts_2(bs, o, 0x21, 0x3D);
+    lemma_starts_1(bs, o, 0x7E);
+    lemma_starts_2(bs, o, 0x21, 0x7E);
+    lemma_starts_1(bs, o, 0x3E);
+    lemma_starts_2(bs, o, 0x3E, 0x3D);
+    lemma_starts_2(bs, o, 0x3C, 0x3D);
+    lemma_starts_1(bs, o, 0x3C);
+    lemma_starts_1(bs, o, 0x3D);
+    lemma_starts_1(bs, o, 0x3B);
+    lemma_starts_2(bs, o, 0x3A, 0x3A);
+    lemma_starts_1(bs, o, 0x3A);
+    lemma_starts_1(bs, o, 0x5B);
+    lemma_starts_1(bs, o, 0x5D);
+    lemma_starts_2(bs, o, 0x3D, 0x3E);
+    lemma_starts_2(bs, o, 0x26, 0x26);
+    lemma_starts_2(bs, o, 0x7C, 0x7C);
+    lemma_starts_1(bs, o, 0x7C);
+    if starts_with_at(bs, o, lit("select")) { lemma_starts_first(bs, o, lit("select")); }
+    lemma_starts_2(bs, o, 0x69, 0x6E);
+    lemma_starts_2(bs, o, 0x69, 0x73);
+    if starts_with_at(bs, o, lit("not")) { lemma_starts_first(bs, o, lit("not")); }
+    if starts_with_at(bs, o, lit("TRACE")) { lemma_starts_first(bs, o, lit("TRACE")); }
+    if starts_with_at(bs, o, lit("fail")) { lemma_starts_first(bs, o, lit("fail")); }
+    if starts_with_at(bs, o, lit("func")) { lemma_starts_first(bs, o, lit("func")); }
+    if starts_with_at(bs, o, lit("module")) { lemma_starts_first(bs, o, lit("module")); }
+    if starts_with_at(bs, o, lit("let")) { lemma_starts_first(bs, o, lit("let")); }
+    if starts_with_at(bs, o, lit("import")) { lemma_starts_first(bs, o, lit("import")); }
+    if starts_with_at(bs, o, lit("include")) { lemma_starts_first(bs, o, lit("include")); }
+    if starts_with_at(bs, o, lit("assert")) { lemma_starts_first(bs, o, lit("assert")); }
+    if starts_with_at(bs, o, lit("out")) { lemma_starts_first(bs, o, lit("out")); }
+    if starts_with_at(bs, o, lit("constraint")) { lemma_starts_first(bs, o, lit("constraint")); }
+    if starts_with_at(bs, o, lit("convert")) { lemma_starts_first(bs, o, lit("convert")); }
+    lemma_starts_2(bs, o, 0x61, 0x73);
+    if starts_with_at(bs, o, lit("map")) { lemma_starts_first(bs, o, lit("map")); }
+    if starts_with_at(bs, o, lit("filter")) { lemma_starts_first(bs, o, lit("filter")); }
+    if starts_with_at(bs, o, lit("reduce")) { lemma_starts_first(bs, o, lit("reduce")); }
+    if starts_with_at(bs, o, lit("NULL")) { lemma_starts_first(bs, o, lit("NULL")); }
+    if starts_with_at(bs, o, lit("true")) { lemma_starts_first(bs, o, lit("true")); }
+    if starts_with_at(bs, o, lit("false")) { lemma_starts_first(bs, o, lit("false")); }
+}
+// the token's text is the text at its position
+pub open spec fn token_text(bs: Seq<u8>, o: int, e: int, tok: Token) -> bool {
+    let f = encode_utf8(tok.fragment@);
+    match tok.typ {
+        // operators, punctuation, numbers, true/false, NULL: the token is exactly the source text it covers
+        TokenType::PUNCT | TokenType::BOOLEAN | TokenType::EMPTY | TokenType::DIGIT =>
+            f.len() > 0 && starts_with_at(bs, o, f) && e == o + f.len(),
+        // words: exactly the source text; a keyword also covers the separator that must follow it
+        TokenType::BAREWORD => f.len() > 0 && starts_with_at(bs, o, f) && o + f.len() <= e,
+        TokenType::COMMENT => starts_comment(bs, o) && f == bs.subrange(o + 2, cmt_end(bs, o + 2)) && e == cmt_next(bs, cmt_end(bs, o + 2)),
+        TokenType::WS => tok.fragment@.len() == 0 && e == ws_end(bs, o) && e > o,
+        TokenType::END => tok.fragment@.len() == 0 && e == o && o >= bs.len(),
+        // strings: from the opening to the closing quote (the VALUE is unit lit_roundtrip's contract)
+        TokenType::QUOTED => o + 2 <= e && bs[o] == 0x22 && bs[e - 1] == 0x22,
+        TokenType::PIPEQUOTE => false,
+    }
+}
+// what every token satisfies, whichever recogniser made it
+pub open spec fn token_shape<'a>(i: OffsetStrIter<'a>, rest: OffsetStrIter<'a>, tok: Token) -> bool {
+    let bs = bytes_of(i); let o = off_of(i); let e = off_of(rest);
+    // the rest is the same stepper further on, still reporting true positions
+    &&& moved(i, rest, e) && o <= e <= bs.len()
+    // the token reports the line, column and byte offset at which it really starts
+    &&& pos_is(tok.pos, i)
+    // progress: only the END token, at the end of the input, is empty
+    &&& (e == o ==> tok.typ is END)
+    // tokens end on character boundaries
+    &&& (on_boundary(bs, o) ==> on_boundary(bs, e))
+    &&& token_text(bs, o, e, tok)
+}
+pub open spec fn token_res<'a>(i: OffsetStrIter<'a>, r: Result<OffsetStrIter<'a>, Token>) -> bool {
+    let bs = bytes_of(i); let o = off_of(i);
+    &&& !(r is Abort)
+    &&& r matches Result::Complete(rest, tok) ==> token_shape(i, rest, tok)
+    // layout: whitespace, comments and the end of the input are recognised wherever they start
+    &&& ws_end(bs, o) != o ==> (r matches Result::Complete(rest, tok) && tok.typ is WS)
+    &&& starts_comment(bs, o) ==> (r matches Result::Complete(rest, tok) && tok.typ is COMMENT)
+    &&& o >= bs.len() ==> (r matches Result::Complete(rest, tok) && tok.typ is END)
+}
+// "Adjacent characters always form the longest operator": wherever the input starts with the two-character operator
+// `op`, the token IS `op` (not its one-character prefix), whatever follows
+pub open spec fn longest_op<'a>(i: OffsetStrIter<'a>, r: Result<OffsetStrIter<'a>, Token>, op: &str) -> bool {
+    starts_with_at(bytes_of(i), off_of(i), lit(op)) ==>
+        (r matches Result::Complete(rest, tok) && tok.typ is PUNCT && tok.fragment@ == op@ && off_of(rest) == off_of(i) + 2)
+}
+pub proof fn lemma_subrange_starts(bs: Seq<u8>, o: int, e: int)
+    requires 0 <= o <= e <= bs.len()
+    ensures starts_with_at(bs, o, bs.subrange(o, e)), bs.subrange(o, e).len() == e - o
+{
+}
+
+//@ extract src/tokenizer/mod.rs :: fn token
+//@   ret r
+//@   sig <<<
+    requires wf_osi(input)
+    ensures
+        token_res(input, r),
+        longest_op(input, r, "=="), longest_op(input, r, "=>"), longest_op(input, r, ">="), longest_op(input, r, "<="),
+        longest_op(input, r, ".."), longest_op(input, r, "::"), longest_op(input, r, "&&"), longest_op(input, r, "||"),
+        longest_op(input, r, "%%"), longest_op(input, r, "!="), longest_op(input, r, "!~"),
+//@   >>>
+//@   body_start <<<
+    proof {
+        let bs = bytes_of(input); let o = off_of(input);
+        lemma_first_bytes(bs, o);
+        lemma_ws_end_bounds(bs, o);
+        lemma_run_end_bounds(bs, o, ByteClass::Symbol); lemma_run_end_bounds(bs, o, ByteClass::Digit);
+        lemma_subrange_starts(bs, o, run_end(bs, o, ByteClass::Symbol)); lemma_subrange_starts(bs, o, run_end(bs, o, ByteClass::Digit));
+        if starts_comment(bs, o) { lemma_cmt_end_bounds(bs, o + 2); }
+        assert(encode_utf8(Seq::<char>::empty()) =~= Seq::<u8>::empty());
+    }
+//@   >>>
+//@   mutant eq_before_eqeq "eqeqtok, notequaltok," => "equaltok, eqeqtok, notequaltok," expect token
+//@   mutant dot_before_dotdot "dotdottok, dottok," => "dottok, dotdottok," expect token
+//@   mutant pipe_before_or "ortok, pipetok," => "pipetok, ortok," expect token
+//@   mutant slash_before_comment "comment, slashtok," => "slashtok, comment," expect token
+//@   mutant gt_before_ge "complete!(\"Not >=\".to_string(), gtequaltok)," => "gttok, complete!(\"Not >=\".to_string(), gtequaltok)," expect token
+//@ end
 
 } // verus!
 
